@@ -314,6 +314,33 @@ func c06CloseOnce(c *Check, P string, r *RouterRoles2) {
 			}
 		}
 	}
+	// a concurrent second Close must not return nil while the first is still waiting
+	waits := Callers([]*ssa.Function{Cl}, r.WaitFn)
+	closedTrue, _ := BoolEdges(Cl, func(v ssa.Value) bool { return AllOrigins(v, IsFieldLoad(r.ClosedF)) })
+	for _, w := range waits {
+		held := r.LA.Held(w)
+		serial := held[lockID] == 'W'
+		if !serial {
+			// alternative: the already-closed path waits for the 'closed' channel
+			serial = len(closedTrue) > 0
+			for _, e := range closedTrue {
+				var recvs []ssa.Instruction
+				for _, op := range BlockingOps(Cl) {
+					if op.Kind == "recv" && AllOrigins(op.Chan, IsFieldLoad(r.ClosedCh)) {
+						recvs = append(recvs, op.Ins)
+					}
+				}
+				re := ReachEdge(e, NewCut().AddInstrs(recvs...))
+				for _, ret := range Returns(Cl) {
+					if re[ret] {
+						serial = false
+					}
+				}
+			}
+		}
+		c.Report(serial, P+".O4", "CLOSE-SERIALISED", Cl, w.Pos(), "wait for handlers",
+			"while one Close waits for the handlers a concurrent Close cannot return nil: the closed lock is held across the wait (or the already-closed path waits for the 'closed' channel)", "held: "+held.String())
+	}
 	// blocking operations in Close: locks and the bounded wait only
 	for i, op := range BlockingOps(Cl) {
 		c.Report(op.Kind == "lock", P+".O4", "CLOSE-BLOCKS-ONLY-ON-LOCKS", Cl, op.Ins.Pos(), fmt.Sprintf("op#%d (%s)", i, op.Kind), "besides the bounded wait, Close blocks only on its locks")
